@@ -425,6 +425,18 @@ func runC20System(t *testing.T, seed uint64, m *Mask, opt world.Options, r *simr
 		e.AllowUnknownArgs = true
 		srv := e.NewPeer("srv", erpc.PeerConfig{}, &dirtyPlugin{env: e})
 		srv.RouteCall(new(Dirty))
+		// unknown-call / unknown-push handlers run on pooled contexts too: what they are given (possibly an
+		// empty body) must be what this message carried, whatever the context held before
+		srv.SetUnknownCall(func(c erpc.UnknownCallCtx) (interface{}, *erpc.Status) {
+			simrt.YieldQuiet()
+			return []byte(fmt.Sprintf("unknown:%d:%s", len(c.InputBodyBytes()), c.InputBodyBytes())), nil
+		})
+		unknownPushSaw := map[string]string{}
+		srv.SetUnknownPush(func(c erpc.UnknownPushCtx) *erpc.Status {
+			simrt.YieldQuiet()
+			unknownPushSaw[string(c.PeekMeta("Pk"))] = string(c.InputBodyBytes())
+			return nil
+		})
 		cli := e.NewPeer("cli", erpc.PeerConfig{})
 		pf := world.ProtoFunc(proto)
 		var sessions []erpc.Session
@@ -478,6 +490,27 @@ func runC20System(t *testing.T, seed uint64, m *Mask, opt world.Options, r *simr
 					run(i)
 				}
 			}
+		}
+		// unknown routes, with and without a body, after the traffic above
+		for j := 0; j < 2+e.Gen.Intn(4); j++ {
+			body := []byte(nil)
+			if e.Gen.Chance(0.4) {
+				body = []byte(world.GenString(e.Gen, 1+e.Gen.Intn(40), "QRSTUV"))
+			}
+			sess := sessions[j%len(sessions)]
+			var res []byte
+			cmd := sess.Call("/no/such/route", body, &res, erpc.WithBodyCodec('s'))
+			if want := fmt.Sprintf("unknown:%d:%s", len(body), body); cmd.StatusOK() && string(res) != want {
+				e.Fail("C20/unknown-handler-sees-previous-users-body", "unknown-call handler was sent a %d-byte body and answered %q", len(body), res)
+			}
+			pk := fmt.Sprintf("p%d", j)
+			if st := sess.Push("/no/such/push", body, erpc.WithBodyCodec('s'), erpc.WithAddMeta("Pk", pk)); st.OK() {
+				simrt.WaitQuiescent()
+				if saw, ok := unknownPushSaw[pk]; ok && saw != string(body) {
+					e.Fail("C20/unknown-handler-sees-previous-users-body", "unknown-push handler was sent a %d-byte body and saw %q", len(body), saw)
+				}
+			}
+			e.Probe("c20-unknown-handler-messages")
 		}
 		simrt.WaitQuiescent()
 		for _, c := range calls {
